@@ -369,6 +369,50 @@ example : blobBytes false (String.ofList ('0' :: 'x' :: ['F', 'f'])) = some 255 
     blobBytes true (String.ofList ('0' :: 'X' :: ['1', 'g'])) = none := by
   rw [hex_literal_general false 'x' (Or.inl rfl), hex_literal_general true 'X' (Or.inr rfl)]; decide
 
+/-- every hexadecimal digit has a value below sixteen -/
+theorem hexDigitVal_lt (c : Char) (d : Nat) (h : hexDigitVal c = some d) : d < 16 := by
+  unfold hexDigitVal at h
+  split at h
+  · rename_i hc; cases h
+    have h1 : '0'.toNat ≤ c.toNat := hc.1
+    have h2 : c.toNat ≤ '9'.toNat := hc.2
+    have : '0'.toNat = 48 := by decide
+    have : '9'.toNat = 57 := by decide
+    omega
+  · split at h
+    · rename_i hc; cases h
+      have h1 : 'a'.toNat ≤ c.toNat := hc.1
+      have h2 : c.toNat ≤ 'f'.toNat := hc.2
+      have : 'a'.toNat = 97 := by decide
+      have : 'f'.toNat = 102 := by decide
+      omega
+    · split at h
+      · rename_i hc; cases h
+        have h1 : 'A'.toNat ≤ c.toNat := hc.1
+        have h2 : c.toNat ≤ 'F'.toNat := hc.2
+        have : 'A'.toNat = 65 := by decide
+        have : 'F'.toNat = 70 := by decide
+        omega
+      · cases h
+
+/-- `parseHex` is the positional base-16 reading, most significant digit first: one digit is its
+value, and appending a digit multiplies by sixteen and adds it (with `parseHex [] = none` this
+determines the function) -/
+theorem parseHex_single (c : Char) : parseHex [c] = hexDigitVal c := by
+  unfold parseHex
+  simp only [List.isEmpty_cons, Bool.false_eq_true, if_false, List.foldl_cons, List.foldl_nil]
+  cases hexDigitVal c <;> simp
+
+theorem parseHex_snoc (hs : List Char) (c : Char) (h : hs ≠ []) :
+    parseHex (hs ++ [c]) = (parseHex hs).bind fun a => (hexDigitVal c).map fun d => a * 16 + d := by
+  unfold parseHex
+  have h1 : (hs ++ [c]).isEmpty = false := by cases hs <;> simp
+  have h2 : hs.isEmpty = false := by cases hs <;> simp_all
+  simp only [h1, h2, Bool.false_eq_true, if_false, List.foldl_append, List.foldl_cons, List.foldl_nil]
+  cases hs.foldl (fun acc ch => do let a ← acc; let d ← hexDigitVal ch; pure (a * 16 + d)) (some 0) with
+  | none => rfl
+  | some a => cases hexDigitVal c <;> rfl
+
 /-! ### nothing else changes -/
 
 /-- The rewritten statement differs from the original ONLY by the replacements the property asks
